@@ -18,9 +18,11 @@ TOL = 1e-9
 
 
 def ev(model, x):
-    from . import bv
+    from . import bv, lia
     if x is None or isinstance(x, (builtins.bool, builtins.str)):
         return x
+    if isinstance(x, lia.LInt):
+        return model.eval(x.t, model_completion=True).as_long()
     if isinstance(x, builtins.int):
         return builtins.int(x)
     if isinstance(x, builtins.float):
